@@ -49,6 +49,12 @@ impl<VM: VMBinding> Allocator<VM> for LargeObjectAllocator<VM> {
     }
 
     fn alloc_slow_once(&mut self, size: usize, align: usize, _offset: usize) -> Address {
+        // Check the raw request first: for sizes close to `usize::MAX` the alignment padding and
+        // the rounding up to pages below wrap around to a small number of pages.
+        if self.handle_obvious_oom_request(self.tls, size) {
+            return Address::ZERO;
+        }
+
         let maxbytes = allocator::get_maximum_aligned_size::<VM>(size, align);
         let pages = crate::util::conversions::bytes_to_pages_up(maxbytes);
 
